@@ -109,7 +109,8 @@ void libwifi_free_tag(struct libwifi_tagged_parameter *tagged_parameter) {
 }
 
 size_t libwifi_dump_tag(struct libwifi_tagged_parameter *tag, unsigned char *buf, size_t buf_len) {
-    if (tag->header.tag_len > buf_len) {
+    // The tag header is written as well as the tag body
+    if (sizeof(struct libwifi_tag_header) + tag->header.tag_len > buf_len) {
         return -EINVAL;
     }
 
